@@ -159,7 +159,10 @@ def check(run, replay):
         wiring_ok = False
         run.oblige("wiring(ast): cardinality_correction is on only for heuristic names containing %r" % NAME, False, str(e))
 
-    if replay is not None and replay.get("case", {}).get("kind") != "wiring":
+    wiring_replay = replay is not None and (replay.get("case") or {}).get("kind") == "wiring"
+    if wiring_replay:
+        cases, seeds = [], 0
+    elif replay is not None:
         cases = [replay["case"]]
         seeds = 0
     else:
@@ -184,7 +187,7 @@ def check(run, replay):
                 cases.append({"Y": Yf, "X": X, "flag": True, "fam": "planted-" + name})
 
     payload_cases = [{"Y": c["Y"], "X": c["X"], "flag": c["flag"]} for c in cases + pl]
-    out = vlib.run_impl("impl_c01.py", {"cases": payload_cases, "wiring": replay is None or replay.get("case", {}).get("kind") == "wiring",
+    out = vlib.run_impl("impl_c01.py", {"cases": payload_cases, "wiring": replay is None or wiring_replay,
                                         "wiring_names": WIRING_NAMES, "wiring_pair": WIRING_PAIR})
     res = out["results"]
     terms = c01.model_terms("C03", cases)
